@@ -1,6 +1,6 @@
 import re
 
-from vx.lift import Lift, Sub, Call, Members, Guard, DropStmt, Rule, LiftError, match_close, split_args
+from vx.lift import Lift, Sub, Call, Members, Guard, DropStmt, Rule, TryCatch, LiftError, match_close, split_args
 from vx.run import Unit
 
 PU = "libs/pika/coroutines/include/pika/coroutines/detail/posix_utility.hpp"
@@ -18,8 +18,9 @@ class CtorInit(Rule):
     `m()` (value initialisation) becomes `VX_VALUE_INIT(self->m);`.  Order of initialisers is kept as written; class-type
     members that the list does not mention get their default construction (`defaults`) appended."""
 
-    def __init__(self, members, bases=None, obj="self", defaults=None):
+    def __init__(self, members, bases=None, obj="self", defaults=None, ctors=None):
         self.members, self.bases, self.obj, self.n = list(members), dict(bases or {}), obj, 1
+        self.ctors = dict(ctors or {})        # members of class type: constructor call spelling, e.g. pair(a, b) -> make(a, b)
         self.defaults = dict(defaults or {})  # class-type members: default construction when not mentioned in the list
 
     def apply(self, text):
@@ -42,7 +43,9 @@ class CtorInit(Rule):
             o = j + m.end() - 1
             c = match_close(text, o, op, ")" if op == "(" else "}")
             arg = text[o + 1:c].strip()
-            if name in self.members:
+            if name in self.members and name in self.ctors and arg != "":
+                out.append("%s->%s = %s;" % (self.obj, name, self.ctors[name].replace("{args}", arg)))
+            elif name in self.members:
                 out.append("VX_VALUE_INIT(%s->%s);" % (self.obj, name) if arg == "" else "%s->%s = (%s);" % (self.obj, name, arg))
             elif name in self.bases:
                 out.append(self.bases[name].replace("{args}", arg))
@@ -245,6 +248,165 @@ UNITS += [
          doc="I: after rebind_base the per-task fields are field-wise what the constructor produces for the same init data; "
              "stack size, queue, stackless-ness and reference count are outside the frame",
          min_obligations=30),
+]
+
+# ---------------------------------------------------------------------------------------------------------------
+# unit group 3b: the coroutine trampoline (clean hand-back on every exit path; exited + rebound == newly constructed)
+
+CI_CPP = "libs/pika/coroutines/src/detail/coroutine_impl.cpp"
+CI_HPP = "libs/pika/coroutines/include/pika/coroutines/detail/coroutine_impl.hpp"
+CB_HPP = "libs/pika/coroutines/include/pika/coroutines/detail/context_base.hpp"
+CS_HPP = "libs/pika/coroutines/include/pika/coroutines/detail/coroutine_self.hpp"
+CSS_HPP = "libs/pika/coroutines/include/pika/coroutines/detail/coroutine_stackful_self.hpp"
+
+CO_MEMBERS = ["m_caller", "m_state", "m_exit_state", "m_exit_status", "m_thread_data", "m_type_info", "m_thread_id",
+              "continuation_recursion_count_", "m_result", "m_arg", "m_fun"]
+COM = Members(CO_MEMBERS, optional=CO_MEMBERS, obj="thiz")
+
+
+def methods(mapping, obj="thiz"):
+    """this->name(args) / this->super_type::name(args) / name(args)  ->  cname(obj[, args])   (member call -> C function)"""
+    def tmpl(args, env):
+        a = env["args"]
+        return "%s(%s%s)" % (mapping[env["h1"]], obj, (", " + a) if a else "")
+    return Call0(r"(?<![\w.>:])(?:this->)?(?:super_type::)?(%s)" % "|".join(mapping), tmpl)
+
+
+CO_SPELL = [
+    Sub(r"(?:threads::detail::)?thread_schedule_state::(\w+)", r"thread_schedule_state_\1", None),
+    Sub(r"\bthreads::detail::invalid_thread_id\b", "invalid_thread_id", None),
+    Sub(r"\bsuper_type::(ctx_\w+)", r"\1", None),
+    Call(r"\bresult_type(?=\s*\()", "result_make({args})", None),            # std::pair constructor
+    Sub(r"\bstd::exception_ptr\(\)", "exc_null()", None),
+    Sub(r"\b(?:coroutine_self::)?local_self\(\)", "g_local_self", None),     # thread_local accessor
+    Sub(r"\bcoroutine_self::(set_self|get_self)\(", r"coroutine_self_\1(", None),
+]
+THIZ = Sub(r"\bthis\b", "thiz", None)
+
+TRAMP_LOOP = """
+__CPROVER_assigns(status, result_last, CO_FIELDS(thiz), GHOST)
+__CPROVER_loop_invariant(ENTERED(thiz))
+__CPROVER_loop_invariant(result_last.first == thread_schedule_state_unknown || result_last.first == thread_schedule_state_terminated)
+"""
+
+
+def tramp_lifts():
+    frag_ctor = r"\{\s*\}"
+    return {
+        "set_self": Lift(CS_HPP, r"static void set_self\(coroutine_self\* self\)", rules=CO_SPELL),
+        "get_self": Lift(CS_HPP, r"static coroutine_self\* get_self\(\)", rules=CO_SPELL),
+        "coroutine_self_ctor": Lift(CS_HPP, r"explicit coroutine_self\(coroutine_self\* next_self\)", fragment_end=frag_ctor,
+                                    rules=[CtorInit(["next_self_"])]),
+        "stackful_self_ctor": Lift(CSS_HPP, r"explicit coroutine_stackful_self\(impl_type\* pimpl, coroutine_self\* next_self = nullptr\)",
+                                   fragment_end=frag_ctor, rules=[CtorInit(["pimpl_"], bases={"coroutine_self": "coroutine_self_ctor(self, {args});"})]),
+        "rsoe_ctor": Lift(CS_HPP, r"reset_self_on_exit\(coroutine_self\* val, coroutine_self\* old_val = nullptr\)", fragment_end=r"\}",
+                          rules=CO_SPELL + [CtorInit(["old_self"])]),
+        "rsoe_dtor": Lift(CS_HPP, r"~reset_self_on_exit\(\)", which=1, expect=2, rules=CO_SPELL + [Members(["old_self"], optional=["old_self"])]),
+        "cb_running": Lift(CB_HPP, r"bool running\(\) const", rules=[COM]),
+        "cb_is_ready": Lift(CB_HPP, r"bool is_ready\(\) const", rules=[COM]),
+        "cb_ctor": Lift(CB_HPP, r"context_base\(std::ptrdiff_t stack_size, thread_id_type id\)", fragment_end=frag_ctor, rules=[
+            CtorInit(CO_MEMBERS, obj="thiz", bases={"base_type": "/* x86_linux_context_impl({args}): unit ctx.ctor */"})]),
+        "ci_ctor": Lift(CI_HPP, r"coroutine_impl\(functor_type&& f, thread_id_type id, std::ptrdiff_t stack_size\)", fragment_end=frag_ctor,
+                        rules=CO_SPELL + [CtorInit(CO_MEMBERS, obj="thiz", bases={"context_base": "cb_ctor(thiz, {args});"},
+                                                   ctors={"m_result": "result_make({args})"})]),
+        "cb_reset_tss": Lift(CB_HPP, r"void reset_tss\(\)", rules=[COM]),
+        "cb_reset": Lift(CB_HPP, r"void reset\(\)", rules=[Sub(r"\bm_thread_id\.reset\(\)", "thread_id_reset(&thiz->m_thread_id)", None), COM]),
+        "ci_reset": Lift(CI_HPP, r"void reset\(\)", rules=[
+            Sub(r"\bm_fun\.reset\(\)", "functor_reset(&thiz->m_fun)", None),
+            methods({"reset": "cb_reset", "reset_stack": "ctx_reset_stack"}), COM]),
+        "ci_bind_result": Lift(CI_HPP, r"void bind_result\(result_type res\)", rules=CO_SPELL + [COM]),
+        "ci_args": Lift(CI_HPP, r"arg_type\* args\(\) noexcept", rules=[COM]),
+        "ci_bind_args": Lift(CI_HPP, r"void bind_args\(arg_type\* arg\) noexcept", rules=[COM]),
+        "cb_rebind_base": Lift(CB_HPP, r"void rebind_base\(thread_id_type id\)", rules=CO_SPELL + [methods({"running": "cb_running"}), COM]),
+        "ci_rebind": Lift(CI_HPP, r"void rebind\(functor_type&& f, thread_id_type id\)", rules=CO_SPELL + [
+            methods({"rebind_stack": "ctx_rebind_stack", "rebind_base": "cb_rebind_base"}), COM]),
+        "cb_do_yield": Lift(CB_HPP, r"void do_yield\(\) noexcept", rules=[
+            Sub(r"\bswap_context\(\*this, m_caller, detail::yield_hint\(\)\)", "swap_context_yield(thiz)", None)]),
+        "cb_do_invoke": Lift(CB_HPP, r"void do_invoke\(\) noexcept", rules=[
+            Sub(r"\bswap_context\(m_caller, \*this, detail::invoke_hint\(\)\)", "swap_context_invoke(thiz)", None),
+            methods({"is_ready": "cb_is_ready"}), COM]),
+        "cb_do_return": Lift(CB_HPP, r"void do_return\(context_exit_status status, std::exception_ptr&& info\) noexcept", rules=[
+            methods({"do_yield": "cb_do_yield"}), COM]),
+        "trampoline": Lift(CI_CPP, r"void coroutine_impl::operator\(\)\(\) noexcept", rules=CO_SPELL + [
+            Sub(r"using context_exit_status = [^;]*;", "", 1),
+            Sub(r"\bcontext_exit_status\s+(\w+)\s*=", r"int \1 =", None),
+            Call(r"\bresult_type\s+(\w+)", "struct result {h1} = result_make({args})", None),
+            Sub(r"\bstd::exception_ptr\s+(\w+);", r"struct exc_ptr \1 = exc_null();", None),
+            Sub(r"\bcoroutine_self\*\s+(\w+)\s*=", r"struct coroutine_self* \1 =", None),
+            Call(r"\bcoroutine_stackful_self\s+(\w+)", "struct coroutine_self {h1}; coroutine_stackful_self_ctor(&{h1}, {args})", None),
+            Guard(r"\breset_self_on_exit\s+(\w+)\(([^;]*)\);", r"struct reset_self_on_exit \1; reset_self_on_exit_ctor(&\1, \2);",
+                  r"reset_self_on_exit_dtor(&\1);", None),
+            # the call of the user's thread function: may throw; the assignment happens only if it returns
+            Sub(r"(\w+) = m_fun\(([^;]*)\);", r"{ struct result vx_t = functor_call(thiz, \2); if (g_threw) VX_THROW_NOW; \1 = vx_t; }", None),
+            Sub(r"\bstd::current_exception\(\)", "exc_current()", None),
+            methods({"reset_tss": "cb_reset_tss", "reset": "ci_reset", "bind_result": "ci_bind_result", "do_return": "cb_do_return",
+                     "args": "ci_args"}),
+            TryCatch(None), THIZ], loops={1: TRAMP_LOOP, "count": 1}),
+    }
+
+
+UNITS += [
+    Unit("recycle.trampoline", "tramp.c", enforce="trampoline", lifts=tramp_lifts(),
+         funcs=[CI_CPP + ": coroutines::detail::coroutine_impl::operator()",
+                CI_HPP + ": coroutine_impl::coroutine_impl, reset, rebind, bind_result, args, bind_args",
+                CB_HPP + ": context_base::context_base, reset_tss, reset, rebind_base, do_return, do_yield, do_invoke, running, is_ready",
+                CS_HPP + ": coroutine_self::coroutine_self, set_self, get_self, reset_self_on_exit::reset_self_on_exit, ~reset_self_on_exit",
+                CSS_HPP + ": coroutine_stackful_self::coroutine_stackful_self"],
+         doc="T+I: at every transfer of control back to the scheduler (normal return and exception) task-local data, id, function, "
+             "argument are cleared and local_self is restored; the exited coroutine + rebind is field-wise a newly constructed one; "
+             "loop contract: every re-entry after rebind+invoke satisfies the entry state again",
+         min_obligations=60),
+]
+
+# ---------------------------------------------------------------------------------------------------------------
+# unit group 2: stack-size class -> free list consistency of thread_queue
+
+TQ = "libs/pika/schedulers/include/pika/schedulers/thread_queue.hpp"
+TQ_MEMBERS = ["parameters_", "thread_heap_small_", "thread_heap_medium_", "thread_heap_large_", "thread_heap_huge_", "thread_heap_nostack_"]
+
+
+def _tid_method(args, env):
+    # get_thread_id_data(x)->name(args)  ->  thread_name(x[, args])
+    a = env["args"]
+    return "thread_%s(%s%s)" % (env["h2"], env["h1"], (", " + a) if a else "")
+
+
+TQ_RULES = [
+    Sub(r"(?:threads::detail::)?thread_schedule_state::(\w+)", r"thread_schedule_state_\1", None),
+    Sub(r"(?:threads::detail::)?thread_id_addref::(\w+)", r"thread_id_addref_\1", None),
+    Call0(r"(?:threads::detail::)?get_thread_id_data\(([^()]*)\)->(\w+)", _tid_method),
+    Sub(r"\b(thread_heap_\w+_)\.push_back\(", r"heap_push_back(&\1, ", None),          # std::vector::push_back
+    Sub(r"\b(\w+)->(empty|back|pop_back)\(\)", r"heap_\2(\1)", None),                    # std::vector through the heap pointer
+    Sub(r"\bthread_heap_type\s*\*", "struct heap*", None),
+    Sub(r"(?:threads::detail::)?thread_data\s*\*", "struct thread_data*", None),
+    Sub(r"(?:threads::detail::)?thread_data_(stackless|stackful)::create\(", r"create_\1(", None),
+    Call(r"(?:threads::detail::)?thread_id_ref_type(?=\s*\()", "id_ref_make({args})", None),
+    Sub(r"\bdata\.", "data->", None),                                                    # reference parameter
+    Call(r"\bdata->scheduler_base->get_stack_size", "scheduler_get_stack_size(data->scheduler_base, {args})", None),
+    Sub(r"\blk\.owns_lock\(\)", "lk->owns", None),
+    Guard(r"(?:pika::)?(?:detail::)?unlock_guard\s*(?:<[^;()]*>)?\s*\w+\s*\(\s*(\w+)\s*\)\s*;", r"lock_unlock(\1);", r"lock_lock(\1);", None),
+    Sub(r"\bthis\b", "self", None),
+]
+
+UNITS += [
+    Unit("heap.recycle_thread", "heap.c", defines=["U_RECYCLE"], enforce="recycle_thread",
+         lifts={"recycle_thread": Lift(TQ, r"void recycle_thread\(threads::detail::thread_id_type thrd\)", rules=TQ_RULES + [
+                    Members(TQ_MEMBERS, optional=TQ_MEMBERS)]),
+                "create_thread_object": Lift(TQ, r"void create_thread_object\(threads::detail::thread_id_ref_type& thrd,", rules=TQ_RULES + [
+                    Sub(r"(?<![\w.>&*])thrd\b", "(*thrd)", None), Members(TQ_MEMBERS, optional=TQ_MEMBERS)])},
+         funcs=[TQ + ": thread_queue::recycle_thread"],
+         doc="T: a terminated object of a configured stack size is pushed onto exactly one of the queue's free lists, once; all "
+             "configurations of the five sizes", min_obligations=10),
+    Unit("heap.create_after_recycle", "heap.c", defines=["U_CREATE"], enforce="create_thread_object",
+         lifts={"recycle_thread": Lift(TQ, r"void recycle_thread\(threads::detail::thread_id_type thrd\)", rules=TQ_RULES + [
+                    Members(TQ_MEMBERS, optional=TQ_MEMBERS)]),
+                "create_thread_object": Lift(TQ, r"void create_thread_object\(threads::detail::thread_id_ref_type& thrd,", rules=TQ_RULES + [
+                    Sub(r"(?<![\w.>&*])thrd\b", "(*thrd)", None), Members(TQ_MEMBERS, optional=TQ_MEMBERS)])},
+         funcs=[TQ + ": thread_queue::create_thread_object, thread_queue::recycle_thread"],
+         doc="F/T over two lifted bodies: for one symbolic victim object put on a free list by recycle_thread and one symbolic "
+             "requested size: same size => create_thread_object consults the very list the victim is on; the victim is handed "
+             "out only for its own stack size; exactly one object (rebound and popped, or new with the requested size) is handed "
+             "out; all configurations of the five sizes including equal ones", min_obligations=30),
 ]
 
 META = {
